@@ -1,0 +1,41 @@
+//go:build verif
+
+package main
+
+import (
+	"bufio"
+	"fmt"
+	"strconv"
+	"strings"
+
+	"github.com/goccmack/gocc/internal/lexer/items"
+)
+
+func init() { commands["ranges"] = cmdRanges }
+
+// cmdRanges reads one sequence of intervals per line ("from to from to ...")
+// applies DisjunctRangeSet.AddRange in that order and prints the resulting
+// classes in the same format.
+func cmdRanges(in *bufio.Reader, out *bufio.Writer, _ []string) {
+	sc := bufio.NewScanner(in)
+	sc.Buffer(make([]byte, 1<<20), 1<<26)
+	for sc.Scan() {
+		fields := strings.Fields(sc.Text())
+		set := items.NewDisjunctRangeSet()
+		for i := 0; i+1 < len(fields); i += 2 {
+			from, err1 := strconv.ParseInt(fields[i], 10, 32)
+			to, err2 := strconv.ParseInt(fields[i+1], 10, 32)
+			if err1 != nil || err2 != nil {
+				panic("bad interval")
+			}
+			set.AddRange(rune(from), rune(to))
+		}
+		for i, r := range set.List() {
+			if i > 0 {
+				out.WriteByte(' ')
+			}
+			fmt.Fprintf(out, "%d %d", r.From, r.To)
+		}
+		out.WriteByte('\n')
+	}
+}
